@@ -23,21 +23,22 @@ SIZES = (
     # long axes (used by the "long axis" slices only, not by the full product)
     {"initialWidth": 2000, "initialHeight": 1980, "layerGap": 60},
     {"initialWidth": 40000, "initialHeight": 40040, "layerGap": 60},
+    {"initialWidth": 3000000, "initialHeight": 3000040, "layerGap": 60},
 )
 N_BASE_SIZES = 2
 LONG_DOMAINS = {"lin": ([0, 1], [0, 10], [0, 7], [-1, 11]), "time": ([_dt.datetime(2019, 12, 30), _dt.datetime(2020, 2, 5, 12)],)}
 
 
 def long_axis_cases(kind):
-    """Datasets on axes of ~2000 and ~40000 units, explicit domains, all directions, ticks on."""
+    """Datasets on axes of ~2000, ~40000 and ~3,000,000 units, explicit domains, all directions, ticks on."""
     times = LIN_TIMES if kind == "lin" else DT_TIMES
     lo, hi = (0, 1) if kind == "lin" else (None, None)
-    for si in (2, 3):
+    for si in (2, 3, 4):
         for direction in DIRECTIONS:
             for di, dom in enumerate(LONG_DOMAINS[kind]):
                 if kind == "lin":
                     span = dom[1] - dom[0]
-                    data = [datum((dom[0] + span * fr, 40, x)) for fr, x in ((0.0, None), (0.31, "ab"), (0.5, None), (1.0, "ab"))]
+                    data = [datum((dom[0] + span * fr, 40, x)) for fr, x in ((0.0, None), (0.31, "ab"), (0.5, None), (0.613579, None), (0.871234, "ab"), (1.0, "ab"))]
                 else:
                     data = [datum((t, 40, x)) for t, x in zip(times[:4], (None, "ab", None, "ab"))]
                 yield si, direction, list(dom), data
